@@ -250,7 +250,9 @@ func (j *jsonReader) getMap() map[string]any {
 	if j.current != nil {
 		return j.current
 	}
-	j.current = j.value[0].(map[string]any)
+	// An item which is not a JSON object has neither tag, type nor value: it
+	// is rejected by assertType instead of panicking here.
+	j.current, _ = j.value[0].(map[string]any)
 	return j.current
 }
 
@@ -264,8 +266,9 @@ func (j *jsonReader) Type() Type {
 	if ty, ok := typeFromName(typ); ok {
 		return ty
 	}
-	//TODO: return error
-	panic("Invalid type")
+	// Unknown type name: report the invalid type 0, which no reading method
+	// accepts, so that the caller gets an encoding error instead of a panic.
+	return Type(0)
 }
 
 // Tag implements reader.
